@@ -479,6 +479,7 @@ def do_one_run(rec, spy, rng, run):
         else:
             def playback_function(recording):
                 raise EXC[pf["ty"]]()
+        before = repr(sorted(getattr(spy.inner, "_recordings", {}).items()))
         try:
             pb = rec.play(rid, playback_function)
             ob = {"outcome": {"o": "val", "v": {"t": "none"}},
@@ -486,6 +487,7 @@ def do_one_run(rec, spy, rng, run):
                   "recouts": datum_list((x.key, x.value) for x in pb.recorded_outputs)}
         except BaseException as ex:
             ob = {"outcome": outcome_of_exc(ex), "pbouts": [], "recouts": []}
+        ob["store_changed"] = before != repr(sorted(getattr(spy.inner, "_recordings", {}).items()))
     ob["trace"] = ctx.trace
     ob["cass"] = spy.log
     ob["state"] = state_of(rec)
